@@ -94,6 +94,18 @@ CHECKS = {
         text="Observables: decl, decl_concrete, name, inline, inline_flattened, export_to_string, output_path and DOCS of ~60 types with many dependencies, shared files and generics, plus every exported file, under 2 (quick) / 4 (thorough) independent from-scratch builds; plus every file of the exporter universe (shared file of 9 types, two instantiations of two generics, cycles, escapes) exported by 1, 2, 4, 8 threads in shuffled orders. The run also measures that the dependency order really differed between builds (18 types in the recorded run) and inside one macro process, i.e. that the nondeterminism the outputs must hide was present.",
         note="Trusted: TLC for the equality judgement, cargo for independent builds. Nondeterminism that does not materialise in the explored builds/schedules is not seen; the model-level statement (all visit orders) is checked in C05/C06.",
         design_ref="DESIGN.md section 5 (C13)"),
+    "C04": dict(
+        category="model_checking",
+        technique="a TypeScript lexer as a character-level state machine (Lexical.tla) and a recursive-descent grammar of exported files (TsGrammar.tla), both in TLA+ and independent of ts-rs; TLC enumerates strings over character classes with the model's verdict on ts-rs's quoting (MC_Lexical.tla); real items carry each string at every position; TLC lexes and parses the real export_to_string() and written files (Trace_Module.tla)",
+        text="Every string of length <=2 (quick) / <=3 (thorough) over {letter, digit, _, $, space, -, \", ', \\, *, /, non-ASCII letter} incl. the empty string, at 7 positions (field rename, unit / struct variant rename, enum tag, content, struct tag, container rename) plus raw / keyword / non-ASCII identifiers, kebab-cased names under every field presentation, generics with defaults, empty shapes, deep nesting; import-esm off and on; export_to_string() and the file written by export_all_to. TLC decides: lexes, parses as imports-then-exports, begins with the notice, declares exactly the expected name once, ends with a newline. The harness parser is calibrated against the TLA+ grammar on every text.",
+        note="Trusted: TLC; Python's unicodedata for the character classes. `format` and no-serde-compat configurations are not in this run. Known finding KF-C04-1.",
+        design_ref="DESIGN.md section 5 (C04), 3.9"),
+    "C15": dict(
+        category="model_checking",
+        technique="MC_Docs.tla enumerates doc texts x syntax x position and renders the JSDoc block with a transcription of parse_docs, lexed by Lexical.tla (model verdict: contained); real documented items next to undocumented siblings, and documented types merged into shared files; TLC (Trace_Module.tla) compares comment-free token streams, counts comments, checks placement and containment of the text",
+        text="Doc texts of <=2/3 lines over {words, empty line, `*/`, `/*`, a glob, `export type X`, quotes, backslashes, non-ASCII, a 300-character line, `//`, ` * `} x {/// lines, #[doc] attributes, one multi-line block} x 10 positions (container of struct/enum, named field, renamed field, tuple field, variant, field of a struct variant, flattened, optional and type-overridden fields), alone and merged between two neighbours in a shared file. TLC decides on the real text: tokens without comments equal the undocumented sibling's; comments are exactly the documented positions; each immediately precedes its declaration / property and contains the text.",
+        note="Trusted: TLC, character classification. Docs reach the derive as #[doc] attributes (what rustc produces for /// and /** */).",
+        design_ref="DESIGN.md section 5 (C15)"),
 }
 
 NOT_YET = "check not built yet (work in progress, see DESIGN.md appendix B)"
